@@ -20,9 +20,9 @@ for pid, spec in sorted(SPECS.items()):
             print(p["binary"], p["pkg"], "race" if p.get("race") else "norace")
 PY
 while read bin pkg race; do
-  flags=""
-  [ "$race" = race ] && flags="-race"
+  flags=""; suffix=""
+  [ "$race" = race ] && flags="-race" && suffix="-race"
   echo "building $bin ($pkg, $race)"
-  ( cd harness && go1.26.8 test -c $flags -tags verif -o ../.bin/$bin.test ./$pkg )
+  ( cd harness && go1.26.8 test -c $flags -tags verif -o ../.bin/$bin$suffix.test ./$pkg )
 done < .bin/builds.txt
 echo "setup ok"
